@@ -76,6 +76,7 @@ type ReplicaSession struct {
 	LastActivity    time.Time                                   // Time of last activity
 	ListenerAddress string                                      // Network address (host:port) the replica is listening on
 	mu              sync.Mutex                                  // Protects session state
+	wake            chan struct{}                               // Pokes the session's stream loop when new entries were written
 }
 
 // NewPrimary creates a new primary node for replication
@@ -242,6 +243,7 @@ func (p *Primary) StreamWAL(
 		Active:          true,
 		LastActivity:    time.Now(),
 		ListenerAddress: listenerAddress,
+		wake:            make(chan struct{}, 1),
 	}
 
 	// Determine compression support
@@ -294,6 +296,11 @@ func (p *Primary) StreamWAL(
 		case <-ctx.Done():
 			// Context was canceled, exit
 			return ctx.Err()
+		case <-session.wake:
+			// New entries were written: send them right away
+			if err := p.sendUpdatedEntries(session); err != nil {
+				log.Error("Failed to send updated entries: %v", err)
+			}
 		case <-ticker.C:
 			// Check if we have new entries to send
 			currentSeq := p.currentWAL().GetNextSequence() - 1
@@ -471,7 +478,15 @@ func (p *Primary) broadcastToReplicas(response *proto.WALStreamResponse) {
 		}
 
 		// Send to the replica - it will create a clone inside sendToReplica
-		p.sendToReplica(session, response)
+		// Never send on a replica's stream from here: this runs inside the
+		// WAL append of a client write, with the WAL and storage locks held,
+		// and a stream send blocks as soon as the replica stops reading (flow
+		// control). Poke the session's own stream loop instead; it sends the
+		// new entries from its own goroutine.
+		select {
+		case session.wake <- struct{}{}:
+		default:
+		}
 	}
 }
 
